@@ -12,6 +12,7 @@ The Python peeler / wrapper are themselves compared with the Gallina ones (chk_p
 chk_wrap) so the two copies of the specification cannot drift.
 """
 import itertools
+import os
 
 from . import common as C
 
@@ -622,7 +623,7 @@ def run(ctx):
                     history_fail('Rmcp.send_and_receive_raw:bridged-request-depends-on-earlier-requests', 'e2e', calls, extra, msg)
                 D.add(('e2ehist', repr(extra), repr(calls)), True, 'rmcp-end-to-end-history-depth%d' % depth)
 
-    failing, errors = C.coq_cases('C09', 'Corr.C09', terms)
+    failing, errors = C.coq_cases('C09_%d' % os.getpid(), 'Corr.C09', terms)
     res.mismatches = [{'case': meta[i], 'term': terms[i][:600]} for i in failing[:50]]
     res.corr_errors = errors
     res.evaluations += len(terms)
